@@ -129,6 +129,49 @@ func runC12(c *ctx) {
 			}
 		}
 	}
+	// wide scopes: one block (or one lambda body, or the top level) binding many distinct names, rebinding some of them
+	// later, and reading them directly, through closures made before and after the rebinding, and from nested blocks
+	for i := 0; i < c.scale(400, 6000) && !c.tooMany(); i++ {
+		n := []int{2, 7, 8, 9, 10, 15, 16, 17, 31, 33, 64, 65, 100}[r.intn(13)]
+		var stm []string
+		for k := 1; k <= n; k++ {
+			stm = append(stm, fmt.Sprintf("$v%d := %d", k, k))
+			if k == n/2 && r.chance(1, 2) {
+				stm = append(stm, fmt.Sprintf("$early := function(){[$v1, $v%d]}", 1+r.intn(k)))
+			}
+		}
+		reb := 1 + r.intn(4)
+		var names []int
+		for k := 0; k < reb; k++ {
+			j := 1 + r.intn(n)
+			if r.chance(1, 2) {
+				j = 1 + r.intn(minInt(n, 8))
+			}
+			names = append(names, j)
+			switch r.intn(3) {
+			case 0:
+				stm = append(stm, fmt.Sprintf("$v%d := %d", j, 1000+j))
+			case 1:
+				stm = append(stm, fmt.Sprintf("$v%d := $v%d + 500", j, j))
+			default:
+				stm = append(stm, fmt.Sprintf("$v%d := function($x){$x * %d}", j, j+1))
+			}
+		}
+		j := names[r.intn(len(names))]
+		obs := []string{fmt.Sprintf("$v%d", j), fmt.Sprintf("[$v%d, $v1, $v%d]", j, n), fmt.Sprintf("function(){$v%d}()", j), fmt.Sprintf("($v%d := 7; $v%d)", j, j),
+			fmt.Sprintf("($w := 1; [$v%d, $v%d])", j, names[0]), fmt.Sprintf("$map([1], function($q){$v%d})", j), fmt.Sprintf("$type($v%d)", j), fmt.Sprintf("$exists($v%d) and $v%d = $v%d", j, j, j)}[r.intn(8)]
+		if strings.Contains(strings.Join(stm, ";"), "$early") && r.chance(1, 2) {
+			obs = "[$early(), " + obs + "]"
+		}
+		body := strings.Join(stm, "; ") + "; " + obs
+		prog := []string{"(%s)", "function(){(%s)}()", "function($v1, $v2){(%s)}(5, 6)", "((%s))", "[1, 2].(%s)", "%s"}[r.intn(6)]
+		if prog == "%s" {
+			// the top-level scope: a block without its own parentheses is not a program, use a sequence of two blocks
+			prog = "(%s)"
+		}
+		c.diffEval(fmt.Sprintf(prog, body), doc, "scoping/wide-block")
+	}
+
 	// assignments that are not direct statements of a block (inside a conditional, a constructor, an argument):
 	// they bind in the scope of the block that contains them, never in an enclosing one
 	c.rep.Exhaustive = append(c.rep.Exhaustive, "assignment in expression position x enclosing block shape x observer")
@@ -254,4 +297,11 @@ func runC12(c *ctx) {
 		}
 		c.diffEval(prog, doc, "partial-chain")
 	}
+}
+
+func minInt(a, b int) int {
+	if a < b {
+		return a
+	}
+	return b
 }
